@@ -39,7 +39,7 @@ static void gen_srv_base(int n)
   }
 }
 
-enum { MOOD_GOOD = 0, MOOD_FLAKY, MOOD_SILENT, MOOD_ERR, MOOD_HOSTILE, MOOD_TC, MOOD_FORMERR, MOOD_NEG, MOOD_RESET, MOOD_BADCOOKIE, MOOD__COUNT };
+enum { MOOD_GOOD = 0, MOOD_FLAKY, MOOD_SILENT, MOOD_ERR, MOOD_HOSTILE, MOOD_TC, MOOD_FORMERR, MOOD_NEG, MOOD_RESET, MOOD_BADCOOKIE, MOOD_RESEND_MIX, MOOD__COUNT };
 
 static void gen_srv_mood(vsrv_t *s, int mood, vh_rng_t *rng)
 {
@@ -136,6 +136,22 @@ static void gen_srv_mood(vsrv_t *s, int mood, vh_rng_t *rng)
       s->w_tcp[SA_SILENT]    = 20;
       s->w_tcp[SA_CLOSE]     = 20;
       s->ck_mode             = 1 + (int)vh_below(rng, 2);
+      break;
+    case MOOD_RESEND_MIX:
+      /* replies that make the library re-send (error rcodes, truncation, FORMERR, bad cookie), several copies of
+       * them, and datagrams that end the connection (unparsable), all from one server: with a few queries in
+       * flight and equal delays they meet in one read pass */
+      s->w_udp[SA_SERVFAIL]      = 20;
+      s->w_udp[SA_REFUSED]       = 8;
+      s->w_udp[SA_TC]            = 17;
+      s->w_udp[SA_FORMERR_NOOPT] = 10;
+      s->w_udp[SA_BADCOOKIE]     = 10;
+      s->w_udp[SA_GARBAGE]       = 15;
+      s->w_udp[SA_DUP]           = 10;
+      s->w_udp[SA_ANSWER]        = 10;
+      s->w_tcp[SA_ANSWER]        = 80;
+      s->w_tcp[SA_SERVFAIL]      = 20;
+      s->ck_mode                 = 1;
       break;
     case MOOD_RESET:
     default:
@@ -440,6 +456,7 @@ static void gen_default_simcfg(vh_rng_t *rng, int hostile)
     sim_cfg.use_pending_write_cb = vh_chance(rng, 1, 5);
     sim_cfg.use_sock_cfg_cb      = vh_chance(rng, 3, 10);
     sim_cfg.use_sock_create_cb   = vh_chance(rng, 3, 10);
+    sim_cfg.bsd_send_on_connecting = vh_chance(rng, 1, 3);
   }
 }
 
@@ -482,7 +499,7 @@ static void gen_hostile(vh_rng_t *rng)
     s->delay_min_ms         = 0;
     s->delay_max_ms         = (int)vh_below(rng, 60);
     s->default_nrec         = vh_chance(rng, 1, 6) ? vh_range(rng, 2, 30) : 1;
-    s->default_ttl          = (uint32_t)vh_below(rng, 600);
+    s->default_ttl          = vh_chance(rng, 1, 8) ? 0 : (uint32_t)vh_below(rng, 600);
     if (s->w_udp[SA_BADCOOKIE] < 50) {
       s->ck_mode = (int)vh_below(rng, 3);
     }
